@@ -132,6 +132,8 @@ def scale_counters(h, mon):
         ("run_of_more_than_4096_ticks", h.tick + 1 > 4096),
         ("run_with_more_than_512_pipelines", len(h.pipelines) > 512),
         ("run_with_more_than_8192_pipelines", len(h.pipelines) > 8192),
+        ("run_with_more_than_100000_pipelines", len(h.pipelines) > 100000),
+        ("run_with_more_than_16384_suspensions_on_one_pool", max(susp.values(), default=0) > 16384),
         ("run_with_more_than_1024_completions_of_one_class", max(done_by_class.values(), default=0) > 1024),
         ("run_with_more_than_256_failed_pipelines", failed_pipes > 256),
         ("run_with_more_than_1000_exits_on_one_pool", max(exits.values(), default=0) > 1000),
@@ -298,6 +300,46 @@ def scale_case(rng, kind, algo=None):
             arrivals.setdefault(str(t + 1), []).append({"pid": f"q{c}", "prio": "QUERY", "ops": [_tiny_op(tps, 1)]})
             t += rng.choice([7, 8, 9])
         params = {"duration": (t + 40) / tps, "ticks_per_second": tps, "num_pools": 1, "cpus_per_pool": 1, "ram_gb_per_pool": 2,
+                  "multi_operator_containers": True}
+        return {"kind": "sim", "algo": "priority", "params": params, "workload": {"type": "script", "arrivals": arrivals},
+                "_scale": kind}
+    if kind == "huge-queue":
+        # > 131,072 pipelines waiting at once (bounded queues / deques with maxlen drop the oldest silently)
+        n = 140000
+        arrivals = {"0": [{"pid": f"h{i}", "prio": PRIOS_L[i % 3], "ops": [_tiny_op(tps, 1)]} for i in range(n)]}
+        params = {"duration": 12 / tps, "ticks_per_second": tps, "num_pools": 2, "cpus_per_pool": 4, "ram_gb_per_pool": 8,
+                  "multi_operator_containers": True, "allow_memory_overcommit": (algo == "overbook")}
+        return {"kind": "sim", "algo": algo or "naive", "params": params, "workload": {"type": "script", "arrivals": arrivals},
+                "_scale": kind}
+    if kind == "huge-ids":
+        # > 100,000 distinct pipeline ids pass one scheduler while one pipeline keeps failing (tables keyed by pipeline
+        # id that are trimmed / compacted "when they get large")
+        # the failing pipeline grows 2 GB per tick in a 10 GB pool: every attempt runs for five ticks before it is killed
+        arrivals = {"0": [{"pid": "victim", "prio": "BATCH_PIPELINE", "ops": [
+            {"parents": [], "segs": [{"cpu": 1.5 / tps, "law": "const", "mem": None, "read": 20.0 * 60.5 / tps}]}]}]}
+        n = 100200
+        for i in range(n):
+            # all of them arrive while the failing pipeline's second attempt is running, on a pool wide enough to start them at once
+            arrivals.setdefault("8", []).append({"pid": f"i{i}", "prio": PRIOS_L[i % 3], "ops": [_tiny_op(tps, 1, mem=0.00002)]})
+        params = {"duration": 40 / tps, "ticks_per_second": tps, "num_pools": 1, "cpus_per_pool": n + 50, "ram_gb_per_pool": 10,
+                  "multi_operator_containers": False, "allow_memory_overcommit": True}
+        return {"kind": "sim", "algo": algo or "overbook", "params": params, "workload": {"type": "script", "arrivals": arrivals},
+                "_scale": kind}
+    if kind == "huge-storm":
+        # > 16,384 completed suspensions in one pool (histories of suspended containers that are capped or scanned
+        # incrementally)
+        arrivals = {}
+        t = 0
+        nb = 0
+        while nb < 17500:
+            for _ in range(10):
+                arrivals.setdefault(str(t), []).append({"pid": f"b{nb}", "prio": "BATCH_PIPELINE",
+                                                        "ops": [_tiny_op(tps, 1), _tiny_op(tps, 1, parents=[0])]})
+                nb += 1
+            for q in range(10):
+                arrivals.setdefault(str(t + 1), []).append({"pid": f"q{nb}_{q}", "prio": "QUERY", "ops": [_tiny_op(tps, 1)]})
+            t += 4
+        params = {"duration": (t + 60) / tps, "ticks_per_second": tps, "num_pools": 1, "cpus_per_pool": 10, "ram_gb_per_pool": 10,
                   "multi_operator_containers": True}
         return {"kind": "sim", "algo": "priority", "params": params, "workload": {"type": "script", "arrivals": arrivals},
                 "_scale": kind}
